@@ -16,7 +16,7 @@ CLAIMED = {
  "C11": dict(text=GEN + "Partial: modular helper and year*size+index carry pattern by engine B; all 42 LoopTyme-backed cycle types by index (wiring per type); solar term stepping; lunar month stepping on the month line of any leap table; lunar/sexagenary/civil years; lunar hour stepping (2n hours) and sexagenary day / instant view stepping (engine B). Stepping of weeks, lunar days, sexagenary months and fortunes is decided under C14, C02, C08 and C16. Not covered: name<->index inverse.",
              note="Assumes: index_of replaced by its engine-B-proved specification in the per-type harnesses; calc_shuo/calc_qi arbitrary (ENV-A); leap table symbolic over a 5-7 year window (ENV-L); LunarMonth::from_ym without the memo cache.",
              technique=ENGB + " + " + BMC),
- "C13": dict(text=GEN + "Partial: civil year/half-year/season/month nesting and month -> days for every year and month (incl. October 1582); lunar year -> months for any leap table (thorough tier); lunar month -> its days, lunar day -> 13 slots, sexagenary day -> 12 double-hours, sexagenary month -> days from Jie day to the day before the next (engine B: the listing loops unrolled with the bound proved, the returned vector compared element by element).; sexagenary year -> 12 months.",
+ "C13": dict(text=GEN + "Partial: civil year/half-year/season/month nesting and month -> days for every year and month (incl. October 1582); lunar year -> months (engine B on a month line in both tiers; Kani over any leap table of a 3-year window in the thorough tier); lunar month -> its days, lunar day -> 13 slots, sexagenary day -> 12 double-hours, sexagenary month -> days from Jie day to the day before the next (engine B: the listing loops unrolled with the bound proved, the returned vector compared element by element).; sexagenary year -> 12 months.",
              note="Assumes: SolarDay::next from the 1st of a month replaced by the reference calendar (lemma 13.L; discharged by C01); ENV-A/ENV-L for the lunar part; for the engine-B lists: month pillar of a day turns at Jie days (C08 08.d), stepping a view moves its day/instant (C11 11.j).",
              technique=BMC + " + " + ENGB),
  "C14": dict(text=GEN + "Partial: civil weeks — acceptance, week count, first day, start weekday, coverage, seven consecutive days, week-of-date — for every month/date, every start weekday, one job per weekday of the 1st of the month. stepping a civil or lunar week by n (|n| <= 6 / 8) and the first day of a lunar week by engine B; the index of a civil week in its year counted from the week containing January 1 (engine B, search loop unrolled with the bound proved); week -> seven days, month -> weeks, week count and constructor acceptance for civil and lunar (engine B). Not covered: steps beyond the stated bounds.",
@@ -25,10 +25,10 @@ CLAIMED = {
  "C19": dict(text=GEN + "Stem / branch / pillar / star attribute tables are decided over their whole finite domains (symbolic index, Kani) against first-principles encodings written from the classical rules; the eight-character derived signs over all pillar combinations, the hidden-stem list and the name-stated tables Direction -> Element, Land -> Direction, Zone -> Beast, Twenty -> Sixty by engine B. Not covered: name-string lookups, Peng Zu texts, 28-mansion luck and foetus tables.",
              note="Assumes: index_of as 32-bit arithmetic (engine B); the oracle tables in harness/src/c19.rs; engine-B object-model axioms (A-index, A-pillar, A-name, A-format) each discharged by another obligation or stated as trusted.",
              technique=BMC + " + " + ENGB),
- "C07": dict(text=GEN + "Partial: weekday = (floor(JD+0.5)+1) mod 7 for every Julian date (Kani); day pillar = (day number + 49) mod 60 on the lunar-date route for every month start and day (engine B over the real index arithmetic, names via an axiomatised object model). Not covered: agreement of the three routes to the pillar (they run the solar->lunar walk over real month data).",
+ "C07": dict(text=GEN + "Partial: weekday = (floor(JD+0.5)+1) mod 7 for every Julian date (Kani); day pillar = (day number + 49) mod 60 on the lunar-date route for every month start and day (engine B over the real index arithmetic, names via an axiomatised object model). the sexagenary-day view stores the pillar of the lunar day of that very date, its getter returns it and the civil date's view is that view, so the three routes agree (engine B). Not covered: that the solar->lunar walk lands on the right lunar day over the real month table (C02 decides it under an abstract tiling table).",
              note="Assumes: LunarMonth::get_first_julian_day arbitrary (ENV-A); object-model axioms A-index, A-name (lemma T60 + trusted first-match search), A-format, A-jd; +1 per civil day composes with C01 01.c on paper.",
              technique=ENGB + " + " + BMC),
- "C08": dict(text=GEN + "Partial: year pillar index (y-4) mod 60; month pillars obey the Five-Tigers rule on every route that builds them by index (lunar month, first month of a sexagenary year, sexagenary month stepping incl. the year carry), all years, engine B. the day view switches the year pillar on the Lichun day and the month pillar on each Jie day (given the date's term). Not covered: the instant-level view.",
+ "C08": dict(text=GEN + "Partial: year pillar index (y-4) mod 60; month pillars obey the Five-Tigers rule on every route that builds them by index (lunar month, first month of a sexagenary year, sexagenary month stepping incl. the year carry), all years, engine B. the day view switches the year pillar on the Lichun day and the month pillar on each Jie day (given the date's term). The instant-level view's switching at the exact term instants is decided under C09 (09.c).",
              note="Assumes: object-model axioms A-index, A-pillar, A-name, A-format; struct invariants (index in year 0..12).",
              technique=ENGB),
  "C09": dict(text=GEN + "Partial: hour branch, Five-Rats stem and the 23:00 roll-over on the lunar-hour route for all 60 day pillars x 24 hours (engine B); the instant-level view reports the next day's pillar from 23:00 with the matching hour pillar and switches year/month pillars at the term instants (engine B); the eight characters are exactly the view's four pillars for both shipped providers, and EightChar's getters return them (engine B); the inverse search visits every candidate year of the range and tries an instant in the hour pillar's double hour on every candidate day of the range (engine B, cycle loop unrolled; two genuine defects found here and fixed); refusal of invalid clock fields (Kani). Not covered: double hours containing a Jie instant, ranges wider than 130 years.",
